@@ -383,6 +383,11 @@ func (h *H) checkInbound(f inboundFlags, final bool) (ownedAtEnd map[uint16]bool
 // inboundCase drives one inbound history.
 func inboundCase(rt *rapid.T, prop string, f inboundFlags) {
 	cfg := baseConfig()
+	// (the clean-session flag goes out with the very first CONNECT only: the
+	// session lives on over reconnects like any other; a restart adopts without)
+	cfg.CleanSession = rapid.IntRange(0, 2).Draw(rt, "cleanSessionAtFirstConnect") == 0
+	cfgRestart := cfg
+	cfgRestart.CleanSession = false
 	bufSize := rapid.SampledFrom([]int{0, 0, 0, 256, 1024}).Draw(rt, "readBuf")
 	if bufSize != 0 {
 		old := mqtt.VerifSetReadBufSize(bufSize)
@@ -571,7 +576,7 @@ func inboundCase(rt *rapid.T, prop string, f inboundFlags) {
 				k = n
 			}
 			late := rapid.Bool().Draw(rt, "late")
-			nh, _ := h.restart(restartOpts{K: k, Late: late, Config: cfg})
+			nh, _ := h.restart(restartOpts{K: k, Late: late, Config: cfgRestart})
 			if k == n {
 				// the whole history happened: ownership taken by a PUBREC
 				// which went out carries over, marker or not
